@@ -4,16 +4,19 @@ The observable is the clone log of the Rc model while the real MIR of the mutati
 make_mut clone and no deep clone happens and the allocation is kept; with aliases at most one clone per shared level on the
 first step and none when the same step is repeated.  A counterexample is replayed natively as a scaling measurement."""
 from lib.common import *
-from props import cow, cow2
+from props import cow, cow2, cow3
 
 PROP = 'C02'
 def run_shape(item, ob):
     if item[0] in ('dict', 'str'): cow2.run_shape(item, ob, 'C02')
+    elif item[0] == 'stmt': cow3.run_shape(item, ob, 'C02')
     else: cow.run_shape(item, ob, 'C02')
 
 def main(tier, seed, t0):
-    cow.MIR, th = load_mir('on'); cow2.MIR = cow.MIR
-    items = cow.items_for(tier, seed) + cow2.items_for(tier, seed)
+    cow.MIR, th = load_mir('on'); cow2.MIR = cow.MIR; cow3.MIR = cow.MIR
+    from props import evalh
+    evalh.parse_programs([s_ + '; 0' for s_ in cow3.STMTS])
+    items = cow.items_for(tier, seed) + cow2.items_for(tier, seed) + cow3.items_for(tier, seed)
     merged, per = pmap(run_shape, items, tier)
     # translator validation for the Rc model: what it calls "in place" must also scale like in-place natively
     # (k mutation steps on n_small vs n_big elements through the surface language, release build)
